@@ -355,5 +355,165 @@ func CheckC17(run *ev.Run) {
 			st["removeIndent-agrees"]++
 		}
 	}
+	// correspondence of the two item splitters behind the regexp captures: `Schemes:` lines and the tag list of
+	// swagger:route / swagger:operation lines. The real regexp cuts the group out; the model is given that group.
+	blanks := []string{" ", "  ", " ", "　", "  "}
+	schemeWords := []string{"http", "https", "HTTP", "HTTPS", "ws", "wss", "WS", "WSS"}
+	tagWords := []string{"pets", "users", "a", "Zoo9", "x-y", "été", "b_c"}
+	callList := func(op, capture string) ([]string, bool) {
+		mb, _ := json.Marshal(map[string]interface{}{"op": op, "s": capture})
+		out, merr := m.Call(mb)
+		var mr struct {
+			R     string   `json:"r"`
+			Items []string `json:"items"`
+		}
+		if merr == nil {
+			_ = json.Unmarshal(out, &mr)
+		}
+		return mr.Items, mr.R == "ok"
+	}
+	same := func(a, b []string) bool { return reflect.DeepEqual(append([]string{}, a...), append([]string{}, b...)) }
+	nSL := 400
+	if run.Tier == "thorough" {
+		nSL = 6000
+	}
+	for i := 0; i < nSL; i++ {
+		// a Schemes line: grammar-generated (separators: comma with any blanks, doubled commas, trailing ones) or hostile
+		var l strings.Builder
+		var want []string
+		l.WriteString([]string{"Schemes", "schemes"}[r.Intn(2)])
+		if r.Intn(3) == 0 {
+			l.WriteString(blanks[r.Intn(len(blanks))])
+		}
+		l.WriteString(":")
+		hostile := r.Intn(8) == 0
+		for k := 1 + r.Intn(4); k > 0; k-- {
+			if r.Intn(2) == 0 {
+				l.WriteString(blanks[r.Intn(len(blanks))])
+			}
+			w := schemeWords[r.Intn(len(schemeWords))]
+			l.WriteString(w)
+			want = append(want, w)
+			if r.Intn(2) == 0 {
+				l.WriteString(blanks[r.Intn(len(blanks))])
+			}
+			if k > 1 || r.Intn(4) == 0 {
+				l.WriteString(",")
+				if r.Intn(5) == 0 {
+					l.WriteString([]string{",", " ,", ", ,"}[r.Intn(3)])
+				}
+			}
+		}
+		if hostile {
+			l.WriteString([]string{"x", ";", " ftp", "\t"}[r.Intn(4)])
+		}
+		line := l.String()
+		var matched bool
+		var capture, realPanic string
+		var real []string
+		func() {
+			defer func() {
+				if e := recover(); e != nil {
+					realPanic = fmt.Sprint(e)
+				}
+			}()
+			matched, capture, real = codescan.VerifSchemes(line)
+		}()
+		run.Traces++
+		if realPanic != "" {
+			st["SCHEMES-PANICS"]++
+			run.Deviation("scanner-panics:schemes", "the Schemes tagger panics: "+realPanic, map[string]interface{}{"line": line})
+			continue
+		}
+		if !matched {
+			st["schemes-line-not-matched"]++
+			if !hostile {
+				st["SCHEMES-GRAMMAR-LINE-REJECTED"]++
+				run.Deviation("schemes-line-rejected", fmt.Sprintf("a Schemes line written per the documented grammar is not recognised: %q", line), map[string]interface{}{"line": line})
+			}
+			continue
+		}
+		items, ok := callList("scan.schemes", capture)
+		if !ok {
+			run.Broken("corr:C17:driver", "model driver failed", nil)
+			break
+		}
+		if !same(items, real) {
+			st["SCHEMES-DIFFERS"]++
+			run.Broken("corr:C17:schemes", fmt.Sprintf("Lean schemesOf and the scanner disagree on %q (captured %q): model %q, real %q", line, capture, items, real), map[string]interface{}{"line": line, "capture": capture, "model": items, "real": real})
+			continue
+		}
+		st["schemes-agrees"]++
+		if !hostile && !same(real, want) {
+			// faithfulness (theorem schemes_faithful, on the real code): the schemes written are the schemes scanned
+			st["SCHEMES-UNFAITHFUL"]++
+			run.Deviation("schemes-unfaithful", fmt.Sprintf("the line %q declares the schemes %q, the scanner sets %q", line, want, real), map[string]interface{}{"line": line, "want": want, "real": real})
+		}
+	}
+	methods := []string{"GET", "post", "Delete", "PATCH", "head", "OPTIONS", "put"}
+	for i := 0; i < nSL; i++ {
+		route := r.Intn(2) == 0
+		var l strings.Builder
+		if route {
+			l.WriteString("swagger:route ")
+		} else {
+			l.WriteString("swagger:operation ")
+		}
+		meth := methods[r.Intn(len(methods))]
+		pth := []string{"/pets", "/pets/{id}", "/v1.2/a-b", "/"}[r.Intn(4)]
+		l.WriteString(meth + blanks[r.Intn(2)] + pth)
+		var want []string
+		for k := r.Intn(4); k > 0; k-- {
+			l.WriteString(blanks[r.Intn(len(blanks))])
+			w := tagWords[r.Intn(len(tagWords))]
+			l.WriteString(w)
+			want = append(want, w)
+		}
+		l.WriteString(blanks[r.Intn(len(blanks))])
+		id := []string{"listPets", "op1", "get-it"}[r.Intn(3)]
+		l.WriteString(id)
+		if r.Intn(3) == 0 {
+			l.WriteString(blanks[r.Intn(len(blanks))])
+		}
+		line := l.String()
+		var matched bool
+		var capture, rm, rp, rid, realPanic string
+		var real []string
+		func() {
+			defer func() {
+				if e := recover(); e != nil {
+					realPanic = fmt.Sprint(e)
+				}
+			}()
+			matched, capture, rm, rp, rid, real = codescan.VerifPathAnnotation(route, line)
+		}()
+		run.Traces++
+		if realPanic != "" {
+			st["HEADER-PANICS"]++
+			run.Deviation("scanner-panics:header", "parsePathAnnotation panics: "+realPanic, map[string]interface{}{"line": line})
+			continue
+		}
+		if !matched {
+			st["HEADER-GRAMMAR-LINE-REJECTED"]++
+			run.Deviation("header-line-rejected", fmt.Sprintf("an annotation line written per the documented grammar is not recognised: %q", line), map[string]interface{}{"line": line})
+			continue
+		}
+		items, ok := callList("scan.tags", capture)
+		if !ok {
+			run.Broken("corr:C17:driver", "model driver failed", nil)
+			break
+		}
+		if !same(items, real) {
+			st["TAGS-DIFFER"]++
+			run.Broken("corr:C17:tags", fmt.Sprintf("Lean fields and the scanner disagree on %q (captured %q): model %q, real %q", line, capture, items, real), map[string]interface{}{"line": line, "capture": capture, "model": items, "real": real})
+			continue
+		}
+		st["tags-agree"]++
+		if rm != meth || rp != pth || rid != id || !same(real, want) {
+			// faithfulness (theorem tags_faithful, on the real code, and the three single-valued groups)
+			st["HEADER-UNFAITHFUL"]++
+			run.Deviation("header-unfaithful", fmt.Sprintf("the line %q declares %s %s tags %q id %s, the scanner reads %s %s tags %q id %s", line, meth, pth, want, id, rm, rp, real, rid), map[string]interface{}{"line": line, "wantTags": want, "tags": real, "method": rm, "path": rp, "id": rid})
+		}
+	}
 	run.Extra["distribution"] = st
 }
